@@ -236,7 +236,8 @@ def hx(b):
 # ---------------------------------------------------------------- results
 
 class Violation:
-    def __init__(self, what, inp, expected=None, observed=None, cls=None, replay_extra=None):
+    def __init__(self, what, inp, expected=None, observed=None, cls=None, replay_extra=None, nofail=False):
+        self.nofail = nofail    # correspondence broken but the property itself not contradicted on this input
         self.what = what
         self.inp = inp
         self.expected = expected
@@ -288,14 +289,18 @@ def finish(prop_id, tier, seed, level, proof, result, t0, design_ref=""):
     for cls, (k, v) in sorted(known_hit.items()):
         lines.append("KNOWN-FINDING: property=%s %s [class=%s]" % (prop_id, k.get("description", v.what), cls))
     n = 0
-    for v in new_viol[:5]:
+    concrete = [v for v in new_viol if not v.nofail]
+    shown = concrete[:5] if concrete else new_viol[:2]
+    for v in shown:
         n += 1
         rp = os.path.join(rdir, "%s-%d.json" % (tier, n))
         json.dump({"property": prop_id, "what": v.what, "input": v.inp, "expected": v.expected,
                    "observed": v.observed, "class": v.cls, "seed": seed, "tier": tier,
+                   "correspondence_only": v.nofail,
                    "cmd": "bin/check %s --replay %s" % (prop_id, os.path.relpath(rp, VERIF)), **v.extra},
                   open(rp, "w"), indent=1, default=str)
-        lines.append("VIOLATION property=%s replay=%s" % (prop_id, os.path.relpath(rp, VERIF)))
+        lines.append("VIOLATION property=%s replay=%s%s" % (prop_id, os.path.relpath(rp, VERIF),
+                                                             " no-failing-input-found" if v.nofail else ""))
         exit_code = 1
     if not proof["ok"]:
         # a proof obligation / the translator / the assumptions check broke
@@ -305,7 +310,7 @@ def finish(prop_id, tier, seed, level, proof, result, t0, design_ref=""):
                    "search": "correspondence/oracle search ran %d cases; concrete failing inputs found: %d"
                              % (result.evaluations, len(new_viol))},
                   open(rp, "w"), indent=1)
-        if not new_viol:
+        if not concrete:
             lines.append("VIOLATION property=%s replay=%s no-failing-input-found" % (prop_id, os.path.relpath(rp, VERIF)))
         exit_code = 1
     cov = {
